@@ -145,7 +145,7 @@ macro_rules! long_arrays {
     }};
 }
 
-/// A stored wrapper moved within guest memory to a place that overlaps its old one (up and down
+/// The wire bytes fetched into and written from a host byte buffer at every offset within a word x guest offset 8..24. A stored wrapper moved within guest memory to a place that overlaps its old one (up and down
 /// by 1..size-1 bytes, and by its size) through the slice-to-slice copies: the wire format
 /// arrives intact at the new place.
 macro_rules! moves {
@@ -181,6 +181,54 @@ macro_rules! moves {
                                 $ctx.fail(&key, &format!("value {:#x} stored at offset {} and moved {} by {}: bytes {:02x?}, expected {:02x?}", v, off, if up { "up" } else { "down" }, d, raw, want), json!({"type": stringify!($W), "value": format!("{:#x}", v), "offset": off, "distance": d, "up": up}));
                             }
                         }
+                    }
+                }
+            }
+        }
+    }};
+}
+
+/// The wire bytes of a stored wrapper fetched into, and written from, a host byte buffer at every
+/// offset within a word (the guest side at every offset too): same phase on both sides, and
+/// every other combination; both buffers hold other bytes beforehand.
+macro_rules! raw_phases {
+    ($ctx:expr, $W:ident, $N:ty, $tobytes:ident, $vals:expr) => {{
+        let sz = size_of::<$N>();
+        let mut gstore = [0u64; 6];
+        // SAFETY: gstore outlives vs
+        let vs = unsafe { VolatileSlice::new(gstore.as_mut_ptr() as *mut u8, 48) };
+        for &v64 in $vals.iter() {
+            let v = v64 as $N;
+            let w: $W = v.into();
+            let want = v.$tobytes();
+            for off in 8..24usize {
+                for k in 0..8usize {
+                    $ctx.case(true);
+                    let mut hstore = [0xEEEE_EEEE_EEEE_EEEEu64; 4];
+                    let host: &mut [u8] = unsafe { std::slice::from_raw_parts_mut(hstore.as_mut_ptr() as *mut u8, 32) };
+                    let mut bad: Option<String> = None;
+                    // guest -> host bytes
+                    vs.write_slice(&[0x5au8; 48], 0).unwrap();
+                    vs.write_obj(w, off).unwrap();
+                    vs.read_slice(&mut host[k..k + sz], off).unwrap();
+                    if host[k..k + sz] != want[..] || host[..k].iter().any(|x| *x != 0xEE) || host[k + sz..].iter().any(|x| *x != 0xEE) {
+                        bad = Some(format!("read_slice into the host buffer at offset {}: got {:02x?}, expected {:02x?}", k, &host[k..k + sz], want));
+                    }
+                    // host bytes -> guest
+                    if bad.is_none() {
+                        vs.write_slice(&[0x5au8; 48], 0).unwrap();
+                        host[k..k + sz].copy_from_slice(&want);
+                        vs.write_slice(&host[k..k + sz], off).unwrap();
+                        let back: $W = vs.read_obj(off).unwrap();
+                        let mut raw = [0u8; 48];
+                        vs.read_slice(&mut raw, 0).unwrap();
+                        if back != w || raw[off..off + sz] != want[..] || raw[..off].iter().any(|x| *x != 0x5a) || raw[off + sz..].iter().any(|x| *x != 0x5a) {
+                            bad = Some(format!("write_slice of the wire bytes from the host buffer at offset {}: guest memory holds {:02x?}, expected {:02x?}", k, &raw[off..off + sz], want));
+                        }
+                    }
+                    if let Some(d) = bad {
+                        let key = format!("C20/{}/wire-bytes-through-a-host-byte-buffer", stringify!($W));
+                        $ctx.fail(&key, &format!("value {:#x} at guest offset {} (mod 8 = {}): {}", v, off, off % 8, d), json!({"type": stringify!($W), "value": format!("{:#x}", v), "guest_offset": off, "host_buffer_offset": k}));
                     }
                 }
             }
@@ -432,7 +480,7 @@ fn structured64() -> impl Iterator<Item = u64> {
 
 pub fn run(tier: Tier, replay: Option<String>) -> i32 {
     let ctx = crate::new_ctx("C20", tier, "exploration", &replay);
-    ctx.set_rule("all 2^16 values for Le16/Be16; all 2^32 values for Le32/Be32 in the thorough tier (quick: every value whose bytes are drawn from {00,01,7f,80,fe,ff} plus rotations of 0x01234567 and single bits); for Le64/Be64/LeSize/BeSize every value whose 8 bytes are drawn from {00,01,7f,80,fe,ff} (6^8 = 1679616 values; every 36th in the quick tier) plus all rotations of 0x0123456789abcdef and all single-bit values. Per value: native->wrapper->native, in-memory bytes == to_le_bytes/to_be_bytes, == with the represented value both ways, != with v^1, the byte-swapped and a rotated value, and (every 97th value) the bytes found in a volatile slice after write_obj at an unaligned offset. Placement sweep: every wrapper x every offset 0..=24 of an 8-aligned container (so every address class mod 8) x 20 boundary values (thorough: + all rotations and single bits) x container pre-filled with 0xa5 / 0x00 x five routes (write_obj, write_slice of as_slice, typed reference store on a volatile slice; write_obj and write on mmap-backed guest memory): the whole container must equal the fill with exactly the wire bytes at the offset, and read_obj must return the value. Every wrapper also stored at every offset of guest memory made of three adjacent regions of 5, 2 and 9 bytes (objects spanning two and three regions). A stored wrapper moved within guest memory up and down by 1..size bytes (overlapping its old place) through both slice-to-slice copies. Long typed copies: arrays of 1..257 wrappers (around the powers of two) at every address mod 8 with a host buffer of the same length, one shorter and one longer, through the element-array and the slice copies in both directions. Records made of wrappers (a packed {Le16,Be32} of alignment 1 and a repr(C) {Le32,Be32,Be16,Le16}): typed slice copies in both directions for every slice offset 0..8 x slice length 0..=3 records+3 (so also lengths that are not a multiple of the record size) x 0..=4 host records, element arrays and object reads: whole records in wire format move, nothing else changes. Non-trivial = the value is not a byte palindrome (its two byte orders differ). Distinct by construction.");
+    ctx.set_rule("all 2^16 values for Le16/Be16; all 2^32 values for Le32/Be32 in the thorough tier (quick: every value whose bytes are drawn from {00,01,7f,80,fe,ff} plus rotations of 0x01234567 and single bits); for Le64/Be64/LeSize/BeSize every value whose 8 bytes are drawn from {00,01,7f,80,fe,ff} (6^8 = 1679616 values; every 36th in the quick tier) plus all rotations of 0x0123456789abcdef and all single-bit values. Per value: native->wrapper->native, in-memory bytes == to_le_bytes/to_be_bytes, == with the represented value both ways, != with v^1, the byte-swapped and a rotated value, and (every 97th value) the bytes found in a volatile slice after write_obj at an unaligned offset. Placement sweep: every wrapper x every offset 0..=24 of an 8-aligned container (so every address class mod 8) x 20 boundary values (thorough: + all rotations and single bits) x container pre-filled with 0xa5 / 0x00 x five routes (write_obj, write_slice of as_slice, typed reference store on a volatile slice; write_obj and write on mmap-backed guest memory): the whole container must equal the fill with exactly the wire bytes at the offset, and read_obj must return the value. Every wrapper also stored at every offset of guest memory made of three adjacent regions of 5, 2 and 9 bytes (objects spanning two and three regions). The wire bytes fetched into and written from a host byte buffer at every offset within a word x guest offset 8..24. A stored wrapper moved within guest memory up and down by 1..size bytes (overlapping its old place) through both slice-to-slice copies. Long typed copies: arrays of 1..257 wrappers (around the powers of two) at every address mod 8 with a host buffer of the same length, one shorter and one longer, through the element-array and the slice copies in both directions. Records made of wrappers (a packed {Le16,Be32} of alignment 1 and a repr(C) {Le32,Be32,Be16,Le16}): typed slice copies in both directions for every slice offset 0..8 x slice length 0..=3 records+3 (so also lengths that are not a multiple of the record size) x 0..=4 host records, element arrays and object reads: whole records in wire format move, nothing else changes. Non-trivial = the value is not a byte palindrome (its two byte orders differ). Distinct by construction.");
     ctx.assume("64-bit and pointer-sized wrappers are covered by a bounded byte alphabet, not exhaustively");
     let mut fails = 0;
     for (n, s, a) in [
@@ -544,6 +592,14 @@ pub fn run(tier: Tier, replay: Option<String>) -> i32 {
     }
     {
         let mv: Vec<u64> = vec![0x0123_4567_89ab_cdef, 0xfedc_ba98_7654_3210, 0x8000_0000_0000_0001, 0x00ff_00ff_00ff_00ff, 0x1122_3344_5566_7788];
+        raw_phases!(ctx, Le16, u16, to_le_bytes, mv);
+        raw_phases!(ctx, Be16, u16, to_be_bytes, mv);
+        raw_phases!(ctx, Le32, u32, to_le_bytes, mv);
+        raw_phases!(ctx, Be32, u32, to_be_bytes, mv);
+        raw_phases!(ctx, Le64, u64, to_le_bytes, mv);
+        raw_phases!(ctx, Be64, u64, to_be_bytes, mv);
+        raw_phases!(ctx, LeSize, usize, to_le_bytes, mv);
+        raw_phases!(ctx, BeSize, usize, to_be_bytes, mv);
         moves!(ctx, Le16, u16, to_le_bytes, mv);
         moves!(ctx, Be16, u16, to_be_bytes, mv);
         moves!(ctx, Le32, u32, to_le_bytes, mv);
